@@ -25,6 +25,13 @@ IsPerm(a)   == IsBij(a) /\ Keys(a) = Values(a)
 Ins(a, k, v) == [x \in (DOMAIN a) \cup {k} |-> IF x = k THEN v ELSE a[x]]
 Rem(a, k)    == [x \in (DOMAIN a) \ {k} |-> a[x]]
 SmInverse(a)  == [y \in Values(a) |-> CHOOSE x \in DOMAIN a : a[x] = y]   \* only for bijections
+(* inverse() of a map that is NOT injective (accepted by the default build; the checks build asserts the      *)
+(* precondition): whatever is returned must again be a finite map - given as its sequence of pairs ps - and a  *)
+(* section of a: one entry per value of a, each sent back to a key that a maps to it                            *)
+IsSection(a, ps) ==
+  /\ \A i, j \in DOMAIN ps : ps[i][1] = ps[j][1] => i = j
+  /\ {ps[i][1] : i \in DOMAIN ps} = Values(a)
+  /\ \A i \in DOMAIN ps : ps[i][2] \in DOMAIN a /\ a[ps[i][2]] = ps[i][1]
 Identity(D) == [x \in D |-> x]
 (* self :: X -> Y, other :: Y -> Z; compose_partial drops keys whose image  *)
 (* is not a key of other; compose is the same function with the            *)
